@@ -96,6 +96,7 @@ def build(target, srcs, flavor="asan", libs=(), extra_flags=(), harness_srcs=())
     /verif/harness) with ccache -- content-hashed, so whatever is in /repo's
     working tree *now* is what gets built -- and link /verif/.build/bin/<target>.
     Returns the executable path."""
+    flavor = os.environ.get("VERIF_FORCE_FLAVOR", flavor)     # tools/coverage.sh: every harness as a gcov build
     flags = FLAVORS[flavor] + list(extra_flags)
     objdir = os.path.join(BUILD, "obj", flavor)
     jobs = []
